@@ -53,7 +53,7 @@ DeltaIs(D, e) == Visible(D) = Logged(e.delta) /\ Hidden(D) = e.hd
 ResetVars ==
   /\ store' = {} /\ delta' = {} /\ todo' = {}
   /\ cur' = [preds |-> {}, plain |-> {}, dos |-> {}, orig |-> {}]
-  /\ phase' = "load" /\ round' = 0 /\ created' = 0 /\ outcome' = "running" /\ doDone' = FALSE
+  /\ phase' = "load" /\ round' = 0 /\ created' = 0 /\ outcome' = "running" /\ doDone' = FALSE /\ pass' = 1
 
 Reset ==
   /\ l <= Len(Trace) /\ IsBase(Ev)
@@ -118,7 +118,7 @@ Reject ==
 TraceInit == /\ l = 1 /\ mode = "idle"
         /\ prog = [rules |-> {}, edb |-> {}, limit |-> 0, family |-> ""]
         /\ store = {} /\ delta = {} /\ todo = {} /\ cur = [preds |-> {}, plain |-> {}, dos |-> {}, orig |-> {}]
-        /\ phase = "load" /\ round = 0 /\ created = 0 /\ outcome = "running" /\ doDone = FALSE
+        /\ phase = "load" /\ round = 0 /\ created = 0 /\ outcome = "running" /\ doDone = FALSE /\ pass = 1
 TraceNext == Reset \/ Skip \/ Step \/ Reject
 TraceSpec == TraceInit /\ [][TraceNext]_tvars
 \* the invariants of the design, evaluated in every state the real run went through
